@@ -61,6 +61,10 @@ func runC11(p *Prog, r *Report) {
 	e10SendOnClosable(p, r, "C11.4/E10b")
 	r.Floor("C11.4/E10b", "e10.closed_and_sent_channel_fields", 1)
 
+	r.Describe("C11.5/E3b", "check-then-act atomicity: a write under a lock that depends on a field guarded by the same lock reads that field in the critical section that writes")
+	e3bObligations(p, r, "C11.5/E3b", nil)
+	r.Floor("C11.5/E3b", "e3b.functions_with_conditional_locked_writes", 40)
+
 	r.Describe("C11.3/E1", "no lock is acquired while already held (directly or through a callee)")
 	e1Obligations(p, r, "C11.3/E1", map[string]bool{"double-lock": true, "callee-relock": true})
 }
